@@ -624,11 +624,15 @@ pub fn all_units() -> Vec<Unit> {
 
 const NASTY: &[&str] = &["\"", "\\", "\n", "\r", "\t", "\u{0}", "\u{1}", "\u{8}", "\u{c}", "\u{1f}", "\u{7f}", "é", "€", "😀", "/", "'", " ", "{", "}", "[", "]", ":", ",", "\u{2028}", "a", "b", "Z", "0", "_"];
 
+pub const JSONISH: &[&str] = &["\":", "\",", "\"}", "\\\":", "{\"a\":1}", "],\"Metrics\":[", "\"Name\":", "}\n{", "\",\"Unit\":\"", "\\u0041", "\\", "\\\\\"", "a\":p99", "\"_aws\":{"];
 pub fn gen_string(rng: &mut Rng) -> String {
     match rng.below(12) {
         0 => String::new(),
         1 => { let n = rng.range(200, 1200) as usize; (0..n).map(|i| if i % 97 == 5 { '"' } else { (b'a' + (i % 26) as u8) as char }).collect() }
-        2..=5 => { let n = rng.range(1, 8); (0..n).map(|_| *rng.pick(NASTY)).collect() }
+        2..=4 => { let n = rng.range(1, 8); (0..n).map(|_| *rng.pick(NASTY)).collect() }
+        // text that looks like the JSON around it: a scanner that looks for a delimiter inside already-escaped text,
+        // or splices one buffer into another, trips over these
+        5 => { let n = rng.range(1, 3); (0..n).map(|_| *rng.pick(JSONISH)).collect::<Vec<_>>().join(if rng.chance(1, 2) { "" } else { "x" }) }
         _ => { let n = rng.range(1, 10); (0..n).map(|_| (b'a' + rng.below(26) as u8) as char).collect() }
     }
 }
@@ -644,7 +648,7 @@ pub fn gen_name(rng: &mut Rng) -> String {
 }
 pub fn gen_safe_name(rng: &mut Rng, avoid: &[String]) -> String {
     for _ in 0..50 {
-        let n = format!("{}{}", rng.pick(&["m", "s", "Lat", "Op", "f", "é", "q\"", "z\\"]), rng.below(40));
+        let n = format!("{}{}", rng.pick(&["m", "s", "Lat", "Op", "f", "é", "q\"", "z\\", "lat\":p", "v\",", "{\"a\":"]), rng.below(40));
         if !avoid.contains(&n) { return n; }
     }
     format!("uniq{}", rng.next())
